@@ -130,6 +130,32 @@ def written_read_back(sym, picks):
             sym.check("own-checksum[%s]" % norm, sym.and_(g[0] == want[norm][0], g[1] == want[norm][1]))
 
 
+def absolute_key_refused(sym, n_before, where):
+    """absolute paths are refused however many entries the table holds already and wherever the absolute key sits: an absolute key put
+    into the public table directly (after n entries recorded by add) is refused when the tree is written"""
+    import C06
+    ti, _ = C06.base_treeinfo(0)
+    ti.checksums.checksums.clear()
+    names = ["images/boot.iso", "images/efiboot.img", "LiveOS/squashfs.img", "images/pxeboot/vmlinuz", "images/pxeboot/initrd.img", "EFI/BOOT/BOOTX64.EFI",
+             "isolinux/isolinux.bin", "images/install.img"]
+    bad = ["/mnt/compose/images/boot.iso", "/zz", "/EFI/BOOT/grub.cfg"][(n_before + len(where)) % 3]          # concrete: it becomes an option name if it is let through
+    value = sym.str("value", 4, minlen=1, alphabet="hexlower")
+    if where == "first":
+        ti.checksums.checksums[bad] = ["sha256", value]
+    for i in range(n_before):
+        ti.checksums.add(names[i], "sha256", "a%d" % i)
+    if where == "last":
+        ti.checksums.checksums[bad] = ["sha256", value]
+    sym.cover("built")
+    text = None
+    try:
+        text = ti.dumps()
+        raised = False
+    except ValueError:
+        raised = True
+    sym.check("absolute-key-refused", raised)
+
+
 FILE_NAMES = ["images", "boot.iso", "LiveOS", "x"]
 
 
@@ -297,6 +323,9 @@ def jobs(tier, seed):
         for c in itertools.product(["typed", "bare"], repeat=n):
             if big or n < 3 or (sum(1 for x in c if x == "bare") + seed) % 2 == 1:
                 out.append({"harness": "read_section", "params": {"kinds": list(c), "n_bare": 66 if (big or n == 1) else 42}})
+    for n_before in ((0, 1, 4, 5, 6, 8) if big else (0, 5, 8)):
+        for where in ("last", "first"):
+            out.append({"harness": "absolute_key_refused", "params": {"n_before": n_before, "where": where}})
     out.append({"harness": "read_section", "params": {"kinds": ["typed"], "n_bare": 66, "n_typed": 62}})
     out.append({"harness": "read_section", "params": {"kinds": ["typed", "bare"], "n_bare": 42, "n_typed": 38}})
     for picks in ([0, 1, 2], [3, 4, 5], [6, 0, 4], [1, 5, 6, 2]):
@@ -310,7 +339,7 @@ def jobs(tier, seed):
 
 META = {
     "pinned_models": True,
-    "expected_covers": {"add_fails": ["called"], "digest_after_rewrite": ["computed"], "digest_of_file": ["computed"], "add_computed": ["computed"], "add_path": ["called"], "read_section": ["read", "accepted"], "written_read_back": ["written", "reloaded"], "image_add_checksum": ["called"]},
+    "expected_covers": {"add_fails": ["called"], "digest_after_rewrite": ["computed"], "digest_of_file": ["computed"], "add_computed": ["computed"], "add_path": ["called"], "read_section": ["read", "accepted"], "written_read_back": ["written", "reloaded"], "absolute_key_refused": ["built"], "image_add_checksum": ["called"]},
     "assumptions": [
         "compute_checksum: the file has a symbolic size up to 3 MiB + 2 (thorough 5 MiB + 2) and unmodelled content; hashlib is uninterpreted - what is decided is that the library "
         "feeds it exactly the bytes [0, size) in order, for every size (both sides of every 1 MiB chunk boundary) and for the listed algorithm names; "
@@ -322,6 +351,7 @@ META = {
         "Checksums.add computing the digest itself (root_dir given): concrete component names, the same shapes of redundant components, the file of symbolic size "
         "<= 1 MiB + 2 lives at the lexically normalised path below the root and nowhere else (so 'x/../' where x does not exist must still resolve)",
         "[checksums] reader: 1-3 entries under concrete option names; 'type:value' with alphanumeric type / hex value, or a bare hex digest of symbolic length 0..66 (quick: 0..42 for 2-3 entries); two jobs with 'type:value' texts of up to 69 / 45 characters (so that their total length reaches 32 / 40 / 64)",
+        "absolute_key_refused: an absolute key placed in the public table before or after 0..8 entries recorded by add()",
         "written_read_back: 3-4 concrete paths (redundant components, names beginning with one or two dots) with symbolic type and value, added to a valid tree, written and read back",
         "[checksums] of a version 0.0 tree: relative keys with and without '/os/' components side by side - each keeps its own checksum (absolute legacy keys are exercised by the shipped fixtures, C05)",
     ],
